@@ -20,7 +20,8 @@ func init() {
 			"G1 every holder of a reference is visited: for each refactoring entry point, the set of syntax fields read by the functions it reaches inside package refactoring (including the Apply methods of the edit values it creates) contains every place where the renamed / removed name can occur (call bindings, modifier bindings, return bindings, pipeline retains, the top-level call where applicable), " +
 			"G2 every expression container is traversed: the expression walkers that rewrite or remove references have an arm for each expression kind that can contain a reference in an uncompiled AST (RefExp, SplitExp, ArrayExp, MapExp) and recurse into the containers (sibling agreement), " +
 			"G3 names are matched whole: no strings.HasPrefix/HasSuffix/Contains/Index of a syntax name field against a non-constant name without a '.' delimiter anywhere in package refactoring, " +
-			"G4 key domains: Pipeline.Callables.Table is accessed with call ids and Ast.Callables.Table with declared names (domains of edit fields inferred from their stores into / comparisons with CallStm.Id and CallStm.DecId). " +
+			"G4 key domains: Pipeline.Callables.Table is accessed with call ids and Ast.Callables.Table with declared names (domains of edit fields inferred from their stores into / comparisons with CallStm.Id and CallStm.DecId), " +
+			"G5 name spaces: nothing reachable from RenameOutput rewrites the id of a binding taken from CallStm.Bindings (an input name). " +
 			"NOT decided: that the edited program compiles, call-graph equality, round-trip of renames.",
 		Assumptions: commonAssumptions,
 	}
@@ -116,7 +117,7 @@ func runC19(c *an.Ctx) {
 	holders := []string{"CallStm.Bindings", "CallStm.Modifiers", "Modifiers.Bindings", "Pipeline.Ret", "ReturnStm.Bindings", "Pipeline.Retain", "PipelineRetains.Refs"}
 	reqs := []req{
 		{"RenameCallable", append(append([]string{}, holders...), "Ast.Call", "Pipeline.Calls", "CallStm.DecId"), "a renamed stage/pipeline is referred to by calls (DecId), by references in call, modifier and return bindings, by pipeline retains and by the top-level call"},
-		{"RenameOutput", append(append([]string{}, holders...), "Pipeline.Calls"), "a renamed output is referred to in call, modifier and return bindings and in pipeline retains"},
+		{"RenameOutput", append(append([]string{}, holders...), "Pipeline.Calls", "Stage.Retain", "RetainParams.Params"), "a renamed output is referred to in call, modifier and return bindings, in pipeline retains and in the stage's own retain list"},
 		{"RenameInput", []string{"CallStm.Bindings", "Pipeline.Calls", "Ast.Call", "CallStm.Modifiers", "Modifiers.Bindings", "Pipeline.Ret", "ReturnStm.Bindings"}, "a renamed input is bound by every call of the callable (including the top-level call) and read through self references in the pipeline's own call, modifier and return bindings"},
 		{"RemoveInputParam", []string{"CallStm.Bindings", "Pipeline.Calls", "Ast.Call"}, "a removed input is bound by every call of the callable including the top-level call"},
 		{"RemoveOutputParam", append(append([]string{}, holders...), "Pipeline.Calls", "Stage.Retain"), "a removed output is referred to in call, modifier and return bindings, in pipeline retains and in the stage's own retain list"},
@@ -139,6 +140,78 @@ func runC19(c *an.Ctx) {
 		sort.Strings(missing)
 		c.Check("G1", "holders-visited("+r.entry+")", root.Pos(), len(missing) == 0,
 			fmt.Sprintf("%s; functions reached: %d; fields never read: %v", r.why, len(fns), missing))
+	}
+
+	// G5 name spaces: an output rename may rewrite names of outputs (out params, return bindings,
+	// references, retains) but never the id of a call's *input* binding - inputs and outputs of a
+	// callable are separate name spaces and may share names.
+	if root := sp.Func("RenameOutput"); root != nil {
+		bindId := p.Field(pkgSyntax, "BindStm", "Id")
+		callBindings := p.Field(pkgSyntax, "CallStm", "Bindings")
+		if bindId == nil || callBindings == nil {
+			c.Undecided("G5", "anchor(BindStm.Id, CallStm.Bindings)", token.NoPos, "field not found")
+		} else {
+			// static reach only: direct calls, closures and the Apply methods of the edit values that are
+			// constructed on the way (dynamic dispatch inside editSet.Apply would pull in every edit type)
+			staticReach := map[*ssa.Function]bool{}
+			var walkS func(fn *ssa.Function)
+			walkS = func(fn *ssa.Function) {
+				if fn == nil || staticReach[fn] || !inRefac(fn) {
+					return
+				}
+				staticReach[fn] = true
+				for _, a := range fn.AnonFuncs {
+					walkS(a)
+				}
+				an.Instrs(fn, func(in ssa.Instruction) {
+					if cl := an.AsCallAny(in); cl != nil {
+						walkS(cl.Common().StaticCallee())
+					}
+					if mi, ok := in.(*ssa.MakeInterface); ok {
+						if sel := p.SSA.MethodSets.MethodSet(mi.X.Type()).Lookup(nil, "Apply"); sel != nil {
+							if o, ok := sel.Obj().(*types.Func); ok {
+								walkS(p.SSA.FuncValue(o))
+							}
+						}
+					}
+				})
+			}
+			walkS(root)
+			var fnsSorted []*ssa.Function
+			for fn := range staticReach {
+				fnsSorted = append(fnsSorted, fn)
+			}
+			sort.Slice(fnsSorted, func(i, j int) bool { return an.FnName(fnsSorted[i]) < an.FnName(fnsSorted[j]) })
+			nStores, bad := 0, 0
+			for _, fn := range fnsSorted {
+				for _, st := range an.StoresToField(fn, bindId) {
+					if st.Parent() != fn {
+						continue
+					}
+					nStores++
+					base, _ := an.FieldOfAddr(st.Addr)
+					sl := newSlice(fn)
+					sl.add(base)
+					fromCallBindings := false
+					for v := range sl.seen {
+						if fa, ok := v.(*ssa.FieldAddr); ok {
+							if _, f := an.FieldOfAddr(fa); f == callBindings {
+								fromCallBindings = true
+							}
+						}
+					}
+					if fromCallBindings {
+						bad++
+						c.Fail("G5", "output-rename-leaves-input-bindings@"+an.FnName(fn), st.Pos(),
+							"reachable from RenameOutput, this store rewrites the id of a binding taken from CallStm.Bindings, i.e. the name of an *input* of the call: an input that happens to share the output's name is renamed as well and the edited program no longer compiles")
+					}
+				}
+			}
+			if bad == 0 {
+				c.Pass("G5", "output-rename-leaves-input-bindings", root.Pos(), fmt.Sprintf("%d stores to BindStm.Id reachable from RenameOutput, none on a binding taken from CallStm.Bindings", nStores))
+			}
+			c.Floor("G5", "stores to BindStm.Id reachable from RenameOutput (return bindings)", nStores, 1)
+		}
 	}
 
 	// G1 per mechanism: the function that enumerates the holders reads each of them itself
